@@ -1,13 +1,26 @@
 """C07/S5 - cooperative recoco.Lock: at most one holder, hand-over to exactly one waiter, no stranded
 waiter.  Sequential E-seq exploration: every program (2-3 tasks x scripts over acquire / try-acquire /
 release / yield on 1-2 locks) x every choice of which waiter a release pops, run on the real
-Scheduler.cycle() with no threads."""
-import itertools
+Scheduler.cycle() with no threads.
+
+The reference is a lock WITHOUT an owner (the library documents "similar semantics to the Python Lock"):
+a lock is held or free; it may be created held (Lock(locked=True)); ANY task may release a held lock, not
+only the one that took it, and the release may be issued from a @task_function helper (which runs as a task
+object of its own), as may the acquire.  Two families of programs are enumerated: the `owned' ones (each script
+releases only what it acquired itself) and the `free-form' ones (every sequence of operations; a release of a
+lock that the reference says is free is issued too - the statement says nothing about what happens to the
+task that does it, and neither does the oracle)."""
+import itertools, types
 from mc.engine import explore, pmap, Ctx, split
 from mc.report import Report
 
 PID = "C07"
 OPS = ("A1", "N1", "R1", "A2", "R2", "Y")
+# free-form alphabets.  hA / hR: the operation is done by a @task_function-style helper (recoco.Again), i.e. by
+# a task object other than the one running the script
+FREE1 = ("A1", "N1", "R1", "hA1", "hR1", "Y")
+FREE1_PLAIN = ("A1", "N1", "R1", "Y")
+FREE2 = ("A1", "N1", "R1", "A2", "R2", "hR1", "hR2", "Y")
 
 
 class ChoiceSet (object):
@@ -45,52 +58,101 @@ def scripts (maxlen, locks):
   return out
 
 
-def run_program (ctx, prog):
+def free_scripts (maxlen, ops):
+  """Every sequence of operations up to the length (no ownership discipline), except those that never touch a
+  lock."""
+  out = []
+  for n in range(1, maxlen + 1):
+    for s in itertools.product(ops, repeat=n):
+      if any(o != "Y" for o in s): out.append(s)
+  return out
+
+
+def run_program (ctx, prog, init=()):
+  """prog: one script per task; init: names of the locks that are created with Lock(locked=True)."""
   import threading, queue
   from mc.env import boot, FakePinger, VClock
   boot()
   import pox.lib.recoco.recoco as R, pox.lib.util as U
   R.threading = threading; R.Thread = threading.Thread; R.Queue = queue.Queue; R.time = VClock()
+  # the scheduler prints a traceback for every task it de-schedules because of an exception (a release of a free
+  # lock raises by design); keep the check's output readable
+  R.print = lambda *a, **k: None
+  R.traceback = types.SimpleNamespace(print_exc=lambda *a, **k: None, format_exc=lambda *a, **k: "")
   U.makePinger = FakePinger
   sch = R.Scheduler(isDefaultScheduler=True, startInThread=False, threaded_selecthub=False)
-  locks = {"1": R.Lock(), "2": R.Lock()}
+  locks = {k: (R.Lock(locked=True) if k in init else R.Lock()) for k in ("1", "2")}
   for l in locks.values(): l._waiting = ChoiceSet(ctx)
-  holding = {"1": set(), "2": set()}        # tasks that were told they hold the lock
-  waiting = {"1": set(), "2": set()}        # tasks blocked in a blocking acquire
+  # ---- reference: a lock without an owner --------------------------------------------------------------------
+  mlocked = {k: (k in init) for k in locks}         # is the lock held?
+  holder = {k: ("init" if k in init else None) for k in locks}   # who was told last that it holds it (reporting)
+  waiting = {"1": [], "2": []}          # tasks inside a blocking acquire that has not returned
+  granted = {"1": set(), "2": set()}    # waiters that a release has handed the lock to and that have not resumed yet
+  inrel = {}                            # task -> (lock, waiters) while inside a release of a held lock
   bad = []
   done = set()
+
+  def who (t):
+    """Script index of a task object; a helper's task object (AgainTask) stands for the task that called it."""
+    i = getattr(t, "idx", None)
+    if i is None:
+      p = getattr(t, "parent", None)
+      if p is not None: i = getattr(getattr(p, "task", None), "idx", None)
+    return i
+
+  def op (idx, o):
+    """One operation; a generator of recoco blocking operations, run either inline by the task (yield from) or as
+    the body of a helper."""
+    k = o[-1]
+    c = o[-2]
+    if c == "A":
+      waiting[k].append(idx)
+      r = yield locks[k].acquire()
+      waiting[k].remove(idx)
+      if r is not True: bad.append(("acquire-returned", "blocking acquire returned %r" % (r,)))
+      if idx in granted[k]:
+        granted[k].discard(idx)                     # handed over by a release; the reference lock stayed held
+      elif not mlocked[k]:
+        mlocked[k] = True; holder[k] = idx
+      else:
+        bad.append(("two-holders", "task %r got lock %s while %r holds it" % (idx, k, holder[k])))
+    elif c == "N":
+      r = yield locks[k].acquire(blocking=False)
+      if r is True:
+        if mlocked[k]: bad.append(("two-holders", "task %r got lock %s (non-blocking) while %r holds it" % (idx, k, holder[k])))
+        mlocked[k] = True; holder[k] = idx
+      elif r is not False:
+        bad.append(("acquire-returned", "non-blocking acquire returned %r" % (r,)))
+    elif c == "R":
+      if mlocked[k]:
+        cands = [i for i in waiting[k] if i not in granted[k]]
+        nw = len(cands)
+        inrel[idx] = (k, nw)
+        yield locks[k].release()
+        del inrel[idx]
+        # hand-over: exactly one of the waiters must now own the lock and be queued exactly once
+        if nw:
+          owner = locks[k]._locked
+          queued = [t for t in sch._ready if who(t) in cands]
+          if owner is None or owner is False or owner is True or who(owner) not in cands or len(queued) != 1 or queued[0] is not owner:
+            bad.append(("hand-over", "release with %d waiter(s): owner %r, %d waiter(s) queued" % (nw, who(owner) if owner not in (None, True, False) else owner, len(queued))))
+          else:
+            granted[k].add(who(owner)); holder[k] = who(owner)
+        else:
+          mlocked[k] = False; holder[k] = None
+      else:
+        # the reference says the lock is free: whatever becomes of this task, nothing is demanded of it
+        yield locks[k].release()
+
   class Prog (R.BaseTask):
     def run (self, idx, script):
-      mine = set()
       for o in script:
-        k = o[1] if len(o) > 1 else None
         if o == "Y":
           yield 0
-        elif o[0] == "A":
-          waiting[k].add(idx)
-          r = yield locks[k].acquire()
-          waiting[k].discard(idx)
-          if r is not True: bad.append(("acquire-returned", "blocking acquire returned %r" % (r,)))
-          holding[k].add(idx); mine.add(k)
-          if len(holding[k]) > 1: bad.append(("two-holders", "tasks %r hold lock %s at once" % (sorted(holding[k]), k)))
-        elif o[0] == "N":
-          r = yield locks[k].acquire(blocking=False)
-          if r is True:
-            holding[k].add(idx); mine.add(k)
-            if len(holding[k]) > 1: bad.append(("two-holders", "tasks %r hold lock %s at once" % (sorted(holding[k]), k)))
-          elif r is not False:
-            bad.append(("acquire-returned", "non-blocking acquire returned %r" % (r,)))
-        elif o[0] == "R":
-          if k in mine:
-            mine.discard(k); holding[k].discard(idx)
-            nw = len(waiting[k])
-            yield locks[k].release()
-            # hand-over: exactly one of the waiters must now own the lock and be queued exactly once
-            if nw:
-              owner = locks[k]._locked
-              queued = [t for t in sch._ready if getattr(t, "idx", None) in waiting[k]]
-              if owner is None or owner is False or getattr(owner, "idx", None) not in waiting[k] or len(queued) != 1 or queued[0] is not owner:
-                bad.append(("hand-over", "release with %d waiter(s): owner %r, %d waiter(s) queued" % (nw, getattr(owner, "idx", owner), len(queued))))
+        elif o[0] == "h":
+          yield R.Again(op(idx, o))
+        else:
+          yield from op(idx, o)
       done.add(idx)
       yield False
   tasks = []
@@ -100,41 +162,70 @@ def run_program (ctx, prog):
   steps = 0
   while len(sch._ready) and steps < 200 and not bad:
     sch.cycle(); steps += 1
+    for idx, (k, nw) in list(inrel.items()):
+      # a release never hands control back to the scheduler loop: if the task is still `inside' it after the
+      # cycle, the release failed and the task is gone
+      del inrel[idx]
+      if nw:
+        bad.append(("hand-over", "release of the held lock %s with %d waiter(s) by task %r did not complete: nothing handed over" % (k, nw, idx)))
+      else:
+        mlocked[k] = False; holder[k] = None          # by the reference the lock is free now
     for k, l in locks.items():
-      if not l._locked and waiting[k] and not any(getattr(t, "idx", None) in waiting[k] for t in sch._ready):
+      if not l._locked and waiting[k] and not any(who(t) in waiting[k] for t in sch._ready):
         bad.append(("stranded-waiter", "lock %s is free but task(s) %r stay blocked on it" % (k, sorted(waiting[k]))))
+      elif not mlocked[k] and waiting[k] and not any(who(t) in waiting[k] for t in sch._ready):
+        bad.append(("stranded-waiter", "lock %s was released (free by the reference) but task(s) %r stay blocked on it" % (k, sorted(waiting[k]))))
   if steps >= 200: bad.append(("no-progress", "more than 200 scheduler cycles"))
   if not bad:
     for k, l in locks.items():
-      if waiting[k] and not holding[k]:
+      if waiting[k] and not mlocked[k]:
         bad.append(("stranded-waiter", "at the end nobody holds lock %s but task(s) %r are blocked on it" % (k, sorted(waiting[k]))))
-  return bad, (tuple(sorted(done)), tuple(sorted((k, tuple(sorted(v))) for k, v in holding.items())))
+  return bad, (tuple(sorted(done)), tuple(sorted((k, str(v)) for k, v in holder.items())))
 
 
 def _worker (progs):
   rep = Report(PID, "model_checking")
-  for prog in progs:
+  for prog, init in progs:
     def on_exec (ctx, res):
       bad, out = res
       rep.evaluations += 1; rep.transitions += sum(len(s) for s in prog)
-      rep.outcome(("lock", prog, out, tuple(b[0] for b in bad)))
+      rep.outcome(("lock", prog, init, out, tuple(b[0] for b in bad)))
       for k, what in bad:
-        rep.violation("%s:lock:%s" % (PID, k), "%s; program %r" % (what, prog), dict(locks=True, program=[list(s) for s in prog], choices=ctx.choices()))
-    explore(lambda ctx: run_program(ctx, prog), on_exec=on_exec)
+        rep.violation("%s:lock:%s" % (PID, k), "%s; program %r%s" % (what, prog, ", created locked: %r" % (init,) if init else ""),
+                      dict(locks=True, program=[list(s) for s in prog], init=list(init), choices=ctx.choices()))
+    explore(lambda ctx: run_program(ctx, prog, init), on_exec=on_exec)
   rep.state_count = rep.evaluations
   return rep
 
 
 def programs (quick):
+  """-> [(scripts, locks created held)]"""
   ps = []
+  # owned programs (each script releases only what it took itself), locks created free
   s2 = scripts(3, 2)
-  ps += list(itertools.product(s2, repeat=2))
+  ps += [(p, ()) for p in itertools.product(s2, repeat=2)]
   s3 = scripts(2 if quick else 3, 1)
-  ps += list(itertools.product(s3, repeat=3))
+  ps += [(p, ()) for p in itertools.product(s3, repeat=3)]
   if not quick:
     s4 = scripts(4, 1)
-    ps += list(itertools.product(s4, repeat=2))
-    ps += list(itertools.product(scripts(2, 1), repeat=4))
+    ps += [(p, ()) for p in itertools.product(s4, repeat=2)]
+    ps += [(p, ()) for p in itertools.product(scripts(2, 1), repeat=4)]
+  seen = set(ps)
+  def add (progs, inits):
+    for p in progs:
+      for i in inits:
+        if (p, i) not in seen:
+          seen.add((p, i)); ps.append((p, i))
+  one = ((), ("1",))
+  two = ((), ("1",), ("2",), ("1", "2"))
+  # free-form programs: any task may release; locks created free or held; operations inside helpers
+  add(itertools.product(free_scripts(3, FREE1), repeat=2), one)                      # 2 tasks, 1 lock, helpers
+  add(itertools.product(free_scripts(2, FREE1), repeat=3), one)                      # 3 tasks, 1 lock, helpers
+  add(itertools.product(free_scripts(2, FREE2), repeat=2), two)                      # 2 tasks, 2 locks
+  if not quick:
+    add(itertools.product(free_scripts(3, FREE1_PLAIN), repeat=3), one)
+    add(itertools.product(free_scripts(3, FREE2), repeat=2), two)
+    add(itertools.product(free_scripts(2, FREE1_PLAIN), repeat=4), one)
   return ps
 
 
@@ -149,5 +240,6 @@ def run_locks (cfg):
 
 def replay_locks (data):
   prog = tuple(tuple(s) for s in data["program"])
-  bad, out = run_program(Ctx(list(data["choices"])), prog)
-  return bool(bad), "program %r\n=> %r %r" % (prog, bad, out)
+  init = tuple(data.get("init", ()))
+  bad, out = run_program(Ctx(list(data["choices"])), prog, init)
+  return bool(bad), "program %r, created locked %r\n=> %r %r" % (prog, init, bad, out)
